@@ -14,10 +14,14 @@ const SOH = 0x01
 type Field struct {
 	Tag string
 	Val string
+	Raw bool // emit Tag alone, without '=' (malformed on purpose)
 }
 
-func F(tag int, val string) Field { return Field{strconv.Itoa(tag), val} }
-func FI(tag, val int) Field       { return Field{strconv.Itoa(tag), strconv.Itoa(val)} }
+//go:norace
+func F(tag int, val string) Field { return Field{Tag: strconv.Itoa(tag), Val: val} }
+
+//go:norace
+func FI(tag, val int) Field { return Field{Tag: strconv.Itoa(tag), Val: strconv.Itoa(val)} }
 
 // WireOpts lets a scripted peer damage the framing on purpose.
 type WireOpts struct {
@@ -31,9 +35,16 @@ type WireOpts struct {
 
 // Build frames fields (everything after BodyLength, starting with MsgType) as
 // 8=..|9=..|fields|10=..| computing BodyLength and CheckSum itself.
+//
+//go:norace
 func Build(fields []Field, o WireOpts) []byte {
 	var body bytes.Buffer
 	for _, f := range fields {
+		if f.Raw {
+			body.WriteString(f.Tag)
+			body.WriteByte(SOH)
+			continue
+		}
 		body.WriteString(f.Tag)
 		body.WriteByte('=')
 		body.WriteString(f.Val)
@@ -76,6 +87,8 @@ func Build(fields []Field, o WireOpts) []byte {
 
 // Split cuts a byte stream into messages: a message ends with the SOH-terminated
 // field whose tag is exactly "10". rest is the trailing incomplete part.
+//
+//go:norace
 func Split(stream []byte) (msgs [][]byte, rest []byte) {
 	start := 0
 	fieldStart := 0
@@ -94,6 +107,8 @@ func Split(stream []byte) (msgs [][]byte, rest []byte) {
 }
 
 // Parse splits one message into fields (no validation).
+//
+//go:norace
 func Parse(msg []byte) []Field {
 	var out []Field
 	for _, f := range bytes.Split(msg, []byte{SOH}) {
@@ -111,6 +126,8 @@ func Parse(msg []byte) []Field {
 }
 
 // Get returns the first value of tag in msg.
+//
+//go:norace
 func Get(msg []byte, tag int) (string, bool) {
 	t := strconv.Itoa(tag)
 	for _, f := range Parse(msg) {
@@ -121,6 +138,7 @@ func Get(msg []byte, tag int) (string, bool) {
 	return "", false
 }
 
+//go:norace
 func GetInt(msg []byte, tag int) (int, bool) {
 	v, ok := Get(msg, tag)
 	if !ok {
@@ -130,9 +148,12 @@ func GetInt(msg []byte, tag int) (int, bool) {
 	return n, err == nil
 }
 
+//go:norace
 func MsgType(msg []byte) string { v, _ := Get(msg, 35); return v }
 
 // FrameOK recomputes BodyLength and CheckSum from the bytes alone.
+//
+//go:norace
 func FrameOK(msg []byte) (lenOK, sumOK bool) {
 	fs := Parse(msg)
 	if len(fs) < 3 || fs[0].Tag != "8" || fs[1].Tag != "9" || fs[len(fs)-1].Tag != "10" {
@@ -152,4 +173,6 @@ func FrameOK(msg []byte) (lenOK, sumOK bool) {
 }
 
 // Pretty renders a message with | for SOH.
+//
+//go:norace
 func Pretty(msg []byte) string { return string(bytes.ReplaceAll(msg, []byte{SOH}, []byte{'|'})) }
